@@ -300,7 +300,7 @@ async def scenario(case: Dict[str, Any], srv: Server, obs: Dict[str, Any]):
             obs["entry_error_at"] = loop.time()
 
 
-def run_once(case: Dict[str, Any], cancel_at: Optional[int] = None):
+def run_once(case: Dict[str, Any], cancel_at: Optional[int] = None, cancel_mode: str = "task"):
     srv = Server(case)
     obs: Dict[str, Any] = {}
     holder: Dict[str, Any] = {}
@@ -309,7 +309,14 @@ def run_once(case: Dict[str, Any], cancel_at: Optional[int] = None):
         with warnings.catch_warnings(record=True) as wlist:
             warnings.simplefilter("always")
             with ScriptedHTTP(srv.handle) as http:
-                t = asyncio.create_task(scenario(case, srv, obs), name="vf-scenario")
+                async def scoped():
+                    import anyio
+                    with anyio.CancelScope() as scope:
+                        holder["scope"] = scope
+                        await scenario(case, srv, obs)
+                    if scope.cancelled_caught:
+                        obs["cancelled"] = True
+                t = asyncio.create_task(scoped() if cancel_mode == "scope" else scenario(case, srv, obs), name="vf-scenario")
                 holder["task"] = t
                 try:
                     await t
@@ -341,7 +348,11 @@ def run_once(case: Dict[str, Any], cancel_at: Optional[int] = None):
     if cancel_at is not None:
         def fire():
             t = holder.get("task")
-            if t is not None and not t.done():
+            if cancel_mode == "scope":
+                sc = holder.get("scope")
+                if sc is not None and t is not None and not t.done():
+                    sc.cancel()
+            elif t is not None and not t.done():
                 t.cancel()
         hooks = {cancel_at: fire}
     obs_out, loop = run_virtual(main, hooks=hooks, max_iterations=300_000)
@@ -464,10 +475,10 @@ def exec_cancel_sweep(ctx, case: Dict[str, Any]) -> None:
     if ctx.tier == "quick" and len(ks) > 120:
         rng = ctx.sub_rng("sweep", json.dumps(case, sort_keys=True))
         ks = sorted(set(ks[:60] + rng.sample(ks[60:], 60)))
-    for k in ks:
-        c = dict(base, exit=f"cancel@{k}")
+    for mode, k in [(m, k) for m in ("task", "scope") for k in ks]:
+        c = dict(base, exit=f"{'cancel' if mode == 'task' else 'scopecancel'}@{k}")
         try:
-            obs = run_once(base, cancel_at=k)
+            obs = run_once(base, cancel_at=k, cancel_mode=mode)
         except HangDetected as e:
             ctx.violation("hang_after_cancel", f"cancel at iteration {k}: {e}", c)
             continue
@@ -478,8 +489,8 @@ def exec_cancel_sweep(ctx, case: Dict[str, Any]) -> None:
             continue
         ctx.count("cancel_points")
         ctx.extra["cancel_points"] += 1
-        check_clean(ctx, c, obs, label=f"cancel at loop iteration {k}/{n}: ")
-        ctx.record(c, shape=[bool(obs.get("cancelled")), len(obs.get("leftover_tasks", []))], cls="cancel_sweep",
+        check_clean(ctx, c, obs, label=f"{'task.cancel()' if mode == 'task' else 'anyio scope cancel'} at loop iteration {k}/{n}: ")
+        ctx.record(c, shape=[bool(obs.get("cancelled")), len(obs.get("leftover_tasks", []))], cls="cancel_sweep:" + mode,
                    sample={"case": c, "cancelled": bool(obs.get("cancelled")), "leftovers": obs.get("leftover_tasks")})
 
 
@@ -494,10 +505,10 @@ def run(ctx):
 
 
 def replay(ctx, case):
-    if str(case.get("exit", "")).startswith("cancel@"):
+    if "cancel@" in str(case.get("exit", "")):
         k = int(case["exit"].split("@")[1])
         base = dict(case, exit="normal")
-        obs = run_once(base, cancel_at=k)
+        obs = run_once(base, cancel_at=k, cancel_mode="scope" if case["exit"].startswith("scope") else "task")
         check_clean(ctx, case, obs, label=f"cancel at loop iteration {k}: ")
         ctx.record(case, shape=1)
     else:
